@@ -22,6 +22,12 @@ CHECKS = {
    note="Trusted: ~60-line certificate checker in exactlp.certify, not the simplex. Tolerances 1e-6 relative on values, 10x model tolerance on feasibility; generated data are dyadic rationals so every verdict is far from thresholds.",
    technique="runtime contracts (icontract) + exact certified LP oracle",
    ref="DESIGN.md §4 C04"),
+ "C05": dict(
+   level="exploration",
+   text="Exact oracle monitor: every flux_variability_analysis call of the workload (subsets as objects/ids/single/reversed, fraction 1/0.9/0.5/0, pfba_factor, loopless, 1-3 processes) is compared with exact rational FVA; loopless ranges with the exact union over all thermodynamically feasible sign patterns of the internal-cycle reactions (energy-balance LP per pattern); implied facts (min<=max, optimal FBA flux inside, loopless inside plain, frame index) on every call incl. textbook.",
+   note="Trusted: exactlp certificates; exact null space by rational Gauss elimination. pfba_factor exact only for fraction 1; loopless exact only without forced loops and <= 6 cycle reactions; unbounded ranges skipped as out of domain.",
+   technique="runtime oracle monitor (exact rational FVA / loopless enumeration)",
+   ref="DESIGN.md §4 C05"),
  "C07": dict(
    level="exploration",
    text="Independent oracle (truth table from the generator's own and/or tree) judged after every single knock-out: bounds of every reaction, gene.functional, reaction.functional and the solver's variable bounds; per generated model all gene subsets, all orders for subsets <= 4, four API forms, inside and outside a context (restore checked on exit).",
